@@ -136,6 +136,16 @@ def pack_roundtrip(req):
             res["crc_ok"] = all(c is None or c == (zlib.crc32(raw[o:nxt]) & 0xFFFFFFFF)
                                 for (n, o, c), nxt in zip(sorted(p.index.iterentries(), key=lambda e: e[1]),
                                                           sorted(e[1] for e in p.index.iterentries())[1:] + [len(raw) - 20]))
+            # the index entries dulwich derives from the pack data alone (add_pack / add_thin_pack do this for
+            # every fetched or received pack) against those the writer reported
+            pd = P.PackData(base + ".pack", object_format=SHA1)
+            try:
+                der = sorted((bytes(k), o, c) for k, o, c in pd.sorted_entries())
+            finally:
+                pd.close()
+            res["derived_ok"] = der == [(bytes(k), o, c) for k, o, c in elist]
+            if not res["derived_ok"]:
+                res["derived_diff"] = [(hx(a[0])[:8], a[1], a[2], b[1], b[2]) for a, b in zip(der, elist) if a != b][:3]
         except Exception as e:
             res["read_exc"] = type(e).__name__ + ":" + str(e)[:100]
         finally:
